@@ -10,6 +10,20 @@ ALL = ['C%02d' % i for i in range(1, 21)]
 
 # id -> (category, technique, text, level_note, design_ref)
 CHECKS = {
+    'C01': ('model_checking',
+            'exhaustive enumeration of all piecewise-constant size histories over a (nu,T) lattice up to an epoch bound x sample sizes x passing modes x extrapolation modes x grid-list lengths on a refinement ladder, against an exact-arithmetic coalescent reference; exhaustive (gamma,h,nu,beta,theta0) lattice straddling every regime switch for the equilibrium density',
+            'Every history of k epochs over nu in {0.05,1,20} x T in {0.005,0.3,3} (quick k<=2, thorough k<=3 plus 4-epoch alternations) is '
+            'integrated by the real one-population integrator at three rungs of a (grid, time-step) ladder, n in {2,12,30}, parameters as constants '
+            'and as functions of time, linear and log extrapolation, grid lists of 2-6 sizes in any order, and compared entry by entry with the '
+            'exact coalescent expectation (Tavare lineage-count distribution in Fractions / 80-digit Decimals). Verdicts: within 1.5% at a tenth of '
+            'the default step on the finer grid; error ratio 3..40 per tenfold step refinement where the step error dominates; constant and '
+            'function passing agree to 1e-9; two_epoch / three_epoch / growth / bottlegrowth_1d wrappers agree with the raw integrator or a '
+            '400-piece exact approximation. phi_1D on the full lattice: finite, non-negative, continuous across gamma=0, |gamma|=300, the Qadjust '
+            'guard and h=0.5; its spectrum converges under grid doubling to an independently integrated closed form (DemogSelModels.equil too); '
+            'further integration under the same nu, gamma, h leaves it unchanged up to an error that contracts under refinement.',
+            'The 1.5% clause is read at the top of the ladder (a tenth of the default step, grids 2x the coarse ones). Two classes of histories '
+            '(400-fold expansion 0.3-0.6 time units before sampling) exceed 1.5% and are recorded known findings.',
+            'DESIGN.md §3 C01'),
     'C02': ('model_checking',
             'operator extraction by basis exhaustion (all unit densities) for every kernel x grid tuple x parameter lattice, against the documented scheme coded twice in exact Fractions (assembly form and flux form)',
             'For each of the 15 per-axis kernels, the 5 precomputed-coefficient kernels and the tridiagonal solver the complete N x N one-sweep '
